@@ -72,7 +72,8 @@ def gen(tier, rng):
     # Content-Type through its own `display()`: short and long values, non-ASCII and blanks inside quoted parameters
     for ct in ["text/plain", "text/plain; charset=utf-8", "application/pdf; name=\"résumé.pdf\"", "application/pdf; name=\"é\"", "image/png; name=\"日本語.png\"",
                "application/octet-stream; name=\"" + "é" * 40 + "\"", "application/octet-stream; name=\"" + "x" * 90 + "\"", "multipart/mixed; boundary=\"a b\"",
-               "text/plain; a=\"b c\"; d=\"é f\"", "a/b; c=\"\\\"\"", "text/plain; charset=utf-8; format=flowed; delsp=yes; x-long=" + "y" * 60]:
+               "text/plain; a=\"b c\"; d=\"é f\"", "multipart/mixed; boundary=\"a =?b?= c\"", "multipart/related; boundary=\"=?utf-8?q?x?= y\"; type=\"text/html\"",
+               "application/x-t; name=\"=?utf-8?b?aGk=?= é\"", "a/b; c=\"\\\"\"", "text/plain; charset=utf-8; format=flowed; delsp=yes; x-long=" + "y" * 60]:
         cases.append(f"typed\tctype\t{hexs(ct)}\t-")
     for _ in range({"quick": 150, "search": 500, "thorough": 3000}[tier]):
         val = "".join(rng.choice("ab .éü日-_") for _ in range(rng.randint(1, 70)))
